@@ -194,6 +194,18 @@ static std::string handle(const std::vector<std::string>& a) {
         r += t;
       }
     }
+    // typed references: two arrays / two objects compared through JsonArrayConst / JsonObjectConst give the variants' answer
+    if (!unboundA && !unboundB) {
+      if (va.is<JsonArrayConst>() && vb.is<JsonArrayConst>()) {
+        JsonArrayConst x = va.as<JsonArrayConst>(), y = vb.as<JsonArrayConst>();
+        if ((x == y) != (r[0] == '1') || (y == x) != (r[6] == '1')) r += " TYPED-REF-DIFFERS(array)";
+      }
+      if (va.is<JsonObjectConst>() && vb.is<JsonObjectConst>()) {
+        JsonObjectConst x = va.as<JsonObjectConst>(), y = vb.as<JsonObjectConst>();
+        if ((x == y) != (r[0] == '1') || (y == x) != (r[6] == '1')) r += " TYPED-REF-DIFFERS(object)";
+      }
+      if ((da == db) != (r[0] == '1') || (da != db) != (r[1] == '1')) r += " TYPED-REF-DIFFERS(document)";
+    }
     // a null C string as the right operand is a null: it must give the same answers as a null variant
     if (!unboundB && a[2] == "n") {
       std::string sn = bits12s(va, (const char*)nullptr);
